@@ -23,6 +23,12 @@ class SuccessionDiagramState(TypedDict):
     The network rules as an `.aeon` formatted string.
     """
 
+    variable_order: list[str]
+    """
+    The names of the network variables in their original order (the `.aeon` format
+    does not preserve it, but space keys in `node_indices` depend on it).
+    """
+
     petri_net: nx.DiGraph
     """
     The Petri net representation of the network rules (see :mod:`biobalm.petri_net_translation`).
